@@ -150,8 +150,11 @@ func (c *channel) enqueue(req request, responseChan chan<- response, streaming b
 		return
 	case <-req.ctx.Done():
 		// the caller has given up while the send queue was full (e.g. the sender
-		// is stuck writing to a peer that does not read)
-		c.routeResponse(req.msg.Metadata.MessageID, response{nid: c.node.ID(), err: req.ctx.Err()})
+		// is stuck writing to a peer that does not read). Every call type watches
+		// its context itself, so no response is needed; just forget the router.
+		if responseChan != nil {
+			c.deleteRouter(req.msg.Metadata.MessageID)
+		}
 		return
 	case c.sendQ <- req:
 		// with a send buffer the request may have been queued after the sender
